@@ -301,6 +301,7 @@ class Server:
 
 
 SENTINEL = rq(1, b"\x01no-such-file\x01")
+LAST = {"sentinel_answered": True}     # did the listener answer anything at all in the last exchange?
 
 
 def recv_reply(sock, timeout):
@@ -352,6 +353,7 @@ def first_reply(server, reqbytes, grace, patient=False, a_sock=None):
                 pass
             sentinel_at = time.time()
     bsock.close()
+    LAST["sentinel_answered"] = sentinel_at is not None or reply[0] is not None
     return a, reply[0], reply[1]
 
 
